@@ -37,7 +37,9 @@ def process_chunk_c19(args):
         for i, rec in enumerate(recs):
             for v in range(nvar):
                 c = l3.Concretiser(seed, chunk_no * 100000 + i, v)
-                lines.append((rec, jsonx.dumps(c.line(rec["in"], len(lines)))))
+                # the first pass may meet any formatting (a log that went through jq / a shipper: blanks after ',' and ':'); the second pass
+                # always meets the tool's own
+                lines.append((rec, jsonx.dumps(c.line(rec["in"], len(lines)), sep=((',', ':'), (', ', ': '), (',', ': '))[v % 3])))
         texts = [t for _, t in lines]
         ids = list(range(len(texts)))
         for cfg in cfgs:
@@ -140,10 +142,13 @@ def length_ladder(b, v, cs, tier):
 
 def cfgs(tier):
     cs = [l3.Cfg("base"), l3.Cfg("nbi", num=True, bool=True, ips=True), l3.Cfg("repl", replacement='X"\\é', num=True),
-          l3.Cfg("iprepl", replacement="10.1.2.3:27017", ips=True, num=True)]
+          l3.Cfg("iprepl", replacement="10.1.2.3:27017", ips=True, num=True),
+          # a replacement text that is spelled like a number (placeholders re-read by the second pass must stay what they are)
+          l3.Cfg("numrepl", replacement="1234", num=True, bool=True)]
     if tier == "thorough":
         cs += [l3.Cfg("n", num=True), l3.Cfg("b", bool=True), l3.Cfg("i", ips=True), l3.Cfg("nb", num=True, bool=True),
-               l3.Cfg("empty", replacement="", bool=True, ips=True), l3.Cfg("hex", replacement="0" * 24, num=True, bool=True, ips=True)]
+               l3.Cfg("empty", replacement="", bool=True, ips=True), l3.Cfg("hex", replacement="0" * 24, num=True, bool=True, ips=True),
+               l3.Cfg("boolrepl", replacement="true", bool=True, num=True), l3.Cfg("daterepl", replacement="2020-02-02T02:02:02.000Z", num=True)]
     return cs
 
 
